@@ -248,8 +248,26 @@ def strat_layer(tier):
     })
 
 
-def run_layer(case):
+def _zero_proximity(z):
+    """min over 1 <= n <= |z| of |psi_n(z)| / |xi_n(z)|: how close z is to a zero of a Riccati-Bessel function."""
+    from scipy.special import spherical_jn, spherical_yn
+    z = complex(z)
+    if abs(z) < 1.0:
+        return 1.0
+    n = np.arange(1, int(abs(z)) + 1)
+    zz = z.real if z.imag == 0 else z
+    j = spherical_jn(n, zz); y = spherical_yn(n, zz)
+    with np.errstate(all="ignore"):
+        q = np.abs(j) / np.sqrt(np.abs(j) ** 2 + np.abs(y) ** 2)
+    q = q[np.isfinite(q)]
+    return float(q.min()) if len(q) else 1.0
+
+
+def run_layer(case, _probe=None):
+    """_probe = j: evaluate the same pair with the size parameter moved by j ulp and return the raw values."""
     from holopy.scattering import calc_field, calc_scat_matrix, Mie, Sphere, LayeredSphere
+    if _probe is not None:
+        case = dict(case, x=case["x"] * (1 + _probe * 2.0 ** -52))
     o = case["o"]
     k = gen.wavevec(o)
     unit = o["wl"] / o["nm"]
@@ -283,6 +301,12 @@ def run_layer(case):
     elif mode == "outer_is_medium":
         ns = ns[:nl]
         rout = R * 1.3
+        if nl > 1:
+            # the two objects are summed to different orders (Wiscombe order of x vs 1.3 x).  For one layer the
+            # difference is modelled below with the textbook series; for several layers the detector is kept
+            # beyond k r = 2 N(1.3 x), where no retained order is still growing, and the tolerance gets the
+            # Wiscombe tail (terms beyond the textbook order are < 1e-7 of the leading ones)
+            center = gen.place(dict(case["pl"], kgap=max(case["pl"]["kgap"], 2.0 * refmie.wiscombe(1.3 * case["x"]))), case["det"], unit, R, k)
         if center[2] - rout <= gen.detector_xy_extent(case["det"], unit)[4]:
             center = [center[0], center[1], center[2] + 0.3 * R]
         A = Sphere(n=ns + [o["nm"]], r=radii + [rout], center=center)
@@ -293,22 +317,88 @@ def run_layer(case):
         A = LayeredSphere(n=ns, t=t, center=center)
         B = Sphere(n=ns, r=list(np.cumsum(t)), center=center)
     kw = gen.optics_kwargs(o)
+    # Distance of every layer-interface argument m_l x from a zero of a Riccati-Bessel function psi_n, n <= |z|
+    # (as |psi_n| / |xi_n|).  Yang's recursion divides by such values: the layered coefficients lose digits in
+    # proportion to 1/p (measured: error <= 3e5 eps / p over 80000 spheres, <= 1e-10 for p >= 1e-3).
+    pz = 1.0
+    for obj in (A, B):
+        if np.ndim(obj.r) == 0:
+            continue
+        rr = [float(v) for v in np.atleast_1d(obj.r)]
+        nn = [complex(v) / o["nm"] for v in np.atleast_1d(obj.n)]
+        for l in range(1, len(rr)):
+            for z in (nn[l] * k * rr[l - 1], nn[l] * k * rr[l]):
+                pz = min(pz, _zero_proximity(z))
+    near_zero = pz < 1e-3
+    if near_zero:
+        labels.append("near_riccati_bessel_zero")
+    # roundoff floor of the recursion: 1e-9, plus the Rayleigh-regime cancellation of Yang's recursion, whose
+    # relative error grows like eps / x_core^3 (measured <= 450 eps / x^3 down to x = 0.01)
+    x_in = float(k * min(np.min(np.atleast_1d(A.r)), np.min(np.atleast_1d(B.r))))
+    TOL_L = 1e-9 + 1e4 * 2.0 ** -52 / min(1.0, x_in) ** 3
+    # the 1/p law is continuous; down to p = 1e-3 (error <= 2e-7) it is treated as this algorithm's roundoff,
+    # closer to a zero as the known finding
+    TOL_L += 1e6 * 2.0 ** -52 / max(pz, 1e-3)
+    if mode == "outer_is_medium" and nl > 1:
+        TOL_L += 3e-7
     fa = gen.flatten(calc_field(det, A, theory=Mie(), **kw))[1]
     fb = gen.flatten(calc_field(det, B, theory=Mie(), **kw))[1]
+    if _probe is not None:
+        return (fa, fb, calc_scat_matrix(det, A, o["nm"], o["wl"], theory=Mie()).values,
+                calc_scat_matrix(det, B, o["nm"], o["wl"], theory=Mie()).values)
+
+    def verdict(cls, err_rel, what):
+        """err_rel exceeded the roundoff tolerance: decide between the three explanations."""
+        eps = 2.0 ** -52
+        if near_zero and err_rel <= 1e7 * eps / pz:
+            # the known loss of digits next to a zero of psi_n (known_findings.json), inside its measured law
+            return Outcome(failure(cls, "%s: rel err %.3g x=%.4g layers=%d; a layer argument m_l x lies %.2g from a zero of psi_n"
+                                   % (mode, err_rel, case["x"], nl, pz), mode=mode, near_riccati_bessel_zero=True), True, labels)
+        # conditioning of the problem itself (narrow resonances of large high-index spheres): response of both
+        # objects to a +-1, 3 ulp change of the size parameter
+        noise = 0.0
+        for j in (1, -1, 3):
+            pa, pb, psa, psb = run_layer(case, _probe=j)
+            if what == "field":
+                noise = max(noise, np.abs(pa - fa).max() / scale, np.abs(pb - fb).max() / scale)
+            else:
+                noise = max(noise, np.abs(psa - sa).max() / np.abs(sb).max(), np.abs(psb - sb).max() / np.abs(sb).max())
+        if not near_zero and err_rel <= 30 * noise:
+            return None
+        return Outcome(failure(cls, "%s: rel err %.3g x=%.4g layers=%d (response to one ulp of x: %.3g; distance from a zero of psi_n: %.2g)"
+                               % (mode, err_rel, case["x"], nl, noise, pz), mode=mode, near_riccati_bessel_zero=False), True, labels)
+
     if not (np.all(np.isfinite(fa)) and np.all(np.isfinite(fb))):
         return Outcome(failure("nonfinite", "layered field not finite", mode=mode), True, labels)
     scale = np.abs(fb).max()
     err = np.abs(fa - fb).max()
-    if err > 1e-5 * TOLX * scale:
-        return Outcome(failure("layered_reduction_field", "%s: rel err %.3g x=%.4g layers=%d" % (mode, err / scale, case["x"], nl),
-                               mode=mode), True, labels)
+    trunc = 0.0
+    if mode == "outer_is_medium" and nl == 1:
+        pts = gen.flatten(calc_field(det, B, theory=Mie(), **kw), gen.detector_points_xyz(case["det"], unit))[0]
+        args = (ms[0] * o["nm"], R, center, pts, o["nm"], o["wl"], o["pol"])
+        trunc = np.abs(refmie.holopy_field(*args) - refmie.holopy_field(*args, nmax=refmie.wiscombe(case["x"]))).max()
+        if not np.isfinite(trunc):
+            return Outcome(None, False, labels + ["reference_nonfinite"], skipped=True)
+    ill = False
+    if err > (TOL_L * scale + 3.0 * trunc) * TOLX:
+        out = verdict("layered_reduction_field", (err - 3.0 * trunc) / scale, "field")
+        if out is not None:
+            return out
+        ill = True
     sa = calc_scat_matrix(det, A, o["nm"], o["wl"], theory=Mie()).values
     sb = calc_scat_matrix(det, B, o["nm"], o["wl"], theory=Mie()).values
     e2 = np.abs(sa - sb).max() / np.abs(sb).max()
-    if not np.isfinite(e2) or e2 > 1e-5 * TOLX:
-        return Outcome(failure("layered_reduction_scatmatrix", "%s: rel err %.3g" % (mode, e2), mode=mode), True, labels)
+    if not np.isfinite(e2):
+        return Outcome(failure("nonfinite", "layered scattering matrix not finite", mode=mode), True, labels)
+    if e2 > TOL_L * TOLX:
+        out = verdict("layered_reduction_scatmatrix", e2, "scatmatrix")
+        if out is not None:
+            return out
+        ill = True
+    if ill:
+        labels.append("ill_conditioned_to_one_ulp")
     nontrivial = abs(ms[0] - 1) > 0.02 and (nl > 1 or mode != "thickness_vs_radius")
-    return Outcome(None, nontrivial, labels, metrics={"field_rel_" + mode: err / scale, "scatmatrix_rel_" + mode: e2})
+    return Outcome(None, nontrivial, labels, metrics={} if (near_zero or ill) else {"field_rel_" + mode: err / scale, "scatmatrix_rel_" + mode: e2})
 
 
 SUBCHECKS = [
